@@ -1677,7 +1677,13 @@ impl EGraph {
                 self.add_ruleset(name.clone());
                 log::info!("Declared ruleset {name}.");
             }
-            ResolvedNCommand::UnstableCombinedRuleset(_span, name, others) => {
+            ResolvedNCommand::UnstableCombinedRuleset(span, name, others) => {
+                // Members must exist already: a dangling member made `run` panic on
+                // the missing key, and a ruleset that (transitively) contains itself
+                // made it recurse until the stack overflowed.
+                if let Some(missing) = others.iter().find(|r| !self.rulesets.contains_key(*r)) {
+                    return Err(Error::NoSuchRuleset(missing.clone(), span.clone()));
+                }
                 self.add_combined_ruleset(name.clone(), others);
                 log::info!("Declared ruleset {name}.");
             }
